@@ -455,7 +455,7 @@ theorem step_put (idx : Nat) (top : SV) :
   unfold put
   split
   · simp [step]
-  · simp [step, leBytes_length, drop_append_len]
+  · simp [step, leBytes_length]
 
 theorem step_get (idx : Nat) (x : SV) (h : idx < 2 ^ 32) (hx : mm[idx]? = some x) :
     step (get idx ++ r) ⟨s, mm⟩ = some (r, ⟨x :: s, mm⟩) := by
@@ -513,5 +513,158 @@ theorem step_GLOBAL_cfset (r : Bs) (st : MState) :
   simp only []
   rw [readLine_append _ _ (by decide)]
   simp [classOf, Cls.name, asciiBytes]
+
+
+
+theorem step_saveLong (i : Int) (h : (encodeLong i).length < 2 ^ 32) (r : Bs) (st : MState) :
+    step (saveLong i ++ r) st = some (r, st.push (.val (.int i))) := by
+  unfold saveLong
+  split
+  · rename_i hc
+    simp only [leBytes, List.cons_append, List.nil_append]
+    rw [step_BININT1]
+    have : ((i.toNat % 256 : Nat) : Int) = i := by omega
+    rw [this]
+  · split
+    · rename_i hc
+      have hl : 2 ≤ (leBytes 2 i.toNat ++ r).length := by simp [leBytes_length]
+      simp only [List.cons_append]
+      rw [step_BININT2 _ _ hl, take_append_len _ _ 2 (leBytes_length _ _), drop_append_len _ _ 2 (leBytes_length _ _),
+        fromLE_leBytes]
+      have : ((i.toNat % 256 ^ 2 : Nat) : Int) = i := by omega
+      rw [this]
+    · split
+      · rename_i hc
+        have hlen : (leSigned 4 i).length = 4 := leBytes_length _ _
+        have hl : 4 ≤ (leSigned 4 i ++ r).length := by simp [hlen]
+        simp only [List.cons_append]
+        rw [step_BININT _ _ hl, take_append_len _ _ 4 hlen, drop_append_len _ _ 4 hlen,
+          decodeLong_leSigned 4 i (by omega) (by omega)]
+      · simp only []
+        split
+        · rename_i hn
+          simp only [List.cons_append]
+          rw [step_LONG1 _ _ _ (by simp), take_append_len _ _ _ rfl, drop_append_len _ _ _ rfl, decodeLong_encodeLong]
+        · have hlen : (leBytes 4 (encodeLong i).length).length = 4 := leBytes_length _ _
+          have h4 : (leBytes 4 (encodeLong i).length ++ encodeLong i ++ r).take 4 = leBytes 4 (encodeLong i).length := by
+            rw [List.append_assoc]; exact take_append_len _ _ 4 hlen
+          have h5 : (leBytes 4 (encodeLong i).length ++ encodeLong i ++ r).drop 4 = encodeLong i ++ r := by
+            rw [List.append_assoc]; exact drop_append_len _ _ 4 hlen
+          have h6 : fromLE (leBytes 4 (encodeLong i).length) = (encodeLong i).length := by
+            rw [fromLE_leBytes]; exact Nat.mod_eq_of_lt h
+          simp only [List.cons_append]
+          rw [step_LONG4 _ _ (by simp [hlen]) (by rw [h4, h5, h6]; simp), h4, h5, h6,
+            take_append_len _ _ _ rfl, drop_append_len _ _ _ rfl, decodeLong_encodeLong]
+
+theorem step_saveFloat (x : Nat) (h : x < 2 ^ 64) (r : Bs) (st : MState) :
+    step (saveFloat x ++ r) st = some (r, st.push (.val (.float x))) := by
+  unfold saveFloat
+  have hlen : (leBytes 8 x).reverse.length = 8 := by simp [leBytes_length]
+  simp only [List.cons_append]
+  rw [step_BINFLOAT _ _ (by simp [leBytes_length]), take_append_len _ _ 8 hlen, drop_append_len _ _ 8 hlen,
+    List.reverse_reverse, fromLE_leBytes, Nat.mod_eq_of_lt (by simpa using h)]
+
+theorem step_saveStr (s : Bs) (h : s.length < 2 ^ 32) (r : Bs) (st : MState) :
+    step (saveStr s ++ r) st = some (r, st.push (.val (.str s))) := by
+  unfold saveStr
+  have hlen : (leBytes 4 s.length).length = 4 := leBytes_length _ _
+  have h4 : (leBytes 4 s.length ++ s ++ r).take 4 = leBytes 4 s.length := by
+    rw [List.append_assoc]; exact take_append_len _ _ 4 hlen
+  have h5 : (leBytes 4 s.length ++ s ++ r).drop 4 = s ++ r := by
+    rw [List.append_assoc]; exact drop_append_len _ _ 4 hlen
+  have h6 : fromLE (leBytes 4 s.length) = s.length := by
+    rw [fromLE_leBytes]; exact Nat.mod_eq_of_lt h
+  simp only [List.cons_append]
+  rw [step_BINUNICODE _ _ (by simp [hlen]) (by rw [h4, h5, h6]; simp), h4, h5, h6,
+    take_append_len _ _ _ rfl, drop_append_len _ _ _ rfl]
+
+theorem step_saveBytes (s : Bs) (h : s.length < 2 ^ 32) (r : Bs) (st : MState) :
+    step (saveBytes s ++ r) st = some (r, st.push (.val (.bytes s))) := by
+  unfold saveBytes
+  split
+  · simp only [List.cons_append]
+    rw [step_SHORT_BINBYTES _ _ _ (by simp), take_append_len _ _ _ rfl, drop_append_len _ _ _ rfl]
+  · have hlen : (leBytes 4 s.length).length = 4 := leBytes_length _ _
+    have h4 : (leBytes 4 s.length ++ s ++ r).take 4 = leBytes 4 s.length := by
+      rw [List.append_assoc]; exact take_append_len _ _ 4 hlen
+    have h5 : (leBytes 4 s.length ++ s ++ r).drop 4 = s ++ r := by
+      rw [List.append_assoc]; exact drop_append_len _ _ 4 hlen
+    have h6 : fromLE (leBytes 4 s.length) = s.length := by
+      rw [fromLE_leBytes]; exact Nat.mod_eq_of_lt h
+    simp only [List.cons_append]
+    rw [step_BINBYTES _ _ (by simp [hlen]) (by rw [h4, h5, h6]; simp), h4, h5, h6,
+      take_append_len _ _ _ rfl, drop_append_len _ _ _ rfl]
+
+
+
+/-! ## the memo counter only grows -/
+
+section mono
+variable (e : PyVal → Memo → Bs × Memo)
+
+theorem seqM_mono (he : ∀ x m, m.next ≤ (e x m).2.next) : ∀ (l : List PyVal) (m : Memo), m.next ≤ (seqM e l m).2.next
+  | [], m => Nat.le_refl _
+  | x :: xs, m => by
+    simp only [seqM]
+    exact Nat.le_trans (he x m) (seqM_mono he xs _)
+
+theorem seqKV_mono (he : ∀ x m, m.next ≤ (e x m).2.next) :
+    ∀ (l : List (PyVal × PyVal)) (m : Memo), m.next ≤ (seqKV e l m).2.next
+  | [], m => Nat.le_refl _
+  | (k, v) :: xs, m => by
+    simp only [seqKV]
+    exact Nat.le_trans (he k m) (Nat.le_trans (he v _) (seqKV_mono he xs _))
+
+theorem saveClass_mono (c : Cls) (m : Memo) : m.next ≤ (saveClass c m).2.next := by
+  unfold saveClass
+  split
+  · exact Nat.le_refl _
+  · cases c <;> simp
+
+theorem saveList_mono (he : ∀ x m, m.next ≤ (e x m).2.next) (l : List PyVal) (m : Memo) :
+    m.next + 1 ≤ (saveList e l m).2.next := by
+  simp only [saveList, memoize]
+  exact seqM_mono e he l { m with next := m.next + 1 }
+
+theorem saveTuple_mono (he : ∀ x m, m.next ≤ (e x m).2.next) (l : List PyVal) (m : Memo) :
+    m.next ≤ (saveTuple e l m).2.next := by
+  simp only [saveTuple, memoize]
+  split
+  · exact Nat.le_refl _
+  · have := seqM_mono e he l m
+    split <;> simp <;> omega
+
+theorem wrapper_mono (he : ∀ x m, m.next ≤ (e x m).2.next) (c : Cls) (l : List PyVal) (m : Memo) :
+    m.next ≤ (wrapper e c l m).2.next := by
+  simp only [wrapper]
+  have h1 := saveClass_mono c m
+  have h2 := saveList_mono e he l (memoize (memoize (saveClass c m).2).2).2
+  simp only [memoize] at h2 ⊢
+  omega
+
+end mono
+
+theorem encF_mono (H : Bs → Bs) : ∀ (f : Nat) (v : PyVal) (m : Memo), m.next ≤ (encF H .fixed f v m).2.next := by
+  intro f
+  induction f with
+  | zero => intro v m; simp [encF]
+  | succ f ih =>
+    intro v m
+    cases v with
+    | none => simp [encF]
+    | bool b => simp [encF]
+    | int i => simp [encF]
+    | float x => simp [encF]
+    | str s => simp [encF]
+    | bytes s => simp [encF]
+    | list l => simp only [encF]; have := saveList_mono _ ih l m; omega
+    | tuple l => simp only [encF]; exact saveTuple_mono _ ih l m
+    | set l => simp only [encF]; exact wrapper_mono _ ih _ _ m
+    | frozenset l => simp only [encF]; exact wrapper_mono _ ih _ _ m
+    | dict items =>
+      simp only [encF, memoize]
+      have := seqKV_mono _ ih (sortOn Prod.fst (itemsOf H .fixed (encF H .fixed f) items)) { m with next := m.next + 1 }
+      simp only at this
+      omega
 
 end JoblibModel.HashStream
